@@ -9,7 +9,8 @@ from ..sym import Rat, C
 from ..values import Num, Const, Tup, Term, Obj, P, Val, arr_param, scalar_param, term_as_num, veq, fresh_serial
 from ..model import AnalysisError
 from ..rfa_model import Strategy, strategy, SpecEnv, RFA, ADAPT, strip_state
-from ..symeval import Evaluator
+from ..symeval import Evaluator, assume
+from ..truth import tri
 from .common import S, run as runf, need_num, show, REPO_RESULT_KIND, no_sau
 
 FUNFIT = 'traffic_weaver.funfit.'
@@ -235,7 +236,7 @@ def check_adaptive_windows(ctx):
         recv = e.node.func.value if isinstance(e.node, ast.Call) and isinstance(e.node.func, ast.Attribute) else None
         if isinstance(recv, ast.Name) and pos_of.get(recv.id) in (0, 1):
             table[pos_of[recv.id]].append(e)
-    ctx.floor('C06.6', len(table[0]) + len(table[1]), 8, 'window-table appends')
+    ctx.floor('C06.6', min(len([e for e in table[0] if e.loops]), len([e for e in table[1] if e.loops])), 1, 'window-table appends inside the interval loop')
     # spec
     kctxs = [l for e in apps for l in e.loops]
     if not kctxs:
@@ -246,67 +247,52 @@ def check_adaptive_windows(ctx):
             'al = int(min(max(g*a/(1+g), 1), a))\nar = int(min(max(a/(1+g), 1), a))\nhalf = int(a/2)\n')
     nom, denom = sp.rat('nom'), sp.rat('denom')
 
-    def case_of(guard):
-        """classify the guard into the tie table row"""
-        def holds(pred_r, positive):
-            for g in guard:
-                q, pos = g, True
-                if isinstance(q, P) and q.op == 'not':
-                    q, pos = q.args[0], False
-                if isinstance(q, P) and q.op == '==':
-                    u, v = q.args
-                    for x_, y_ in ((u, v), (v, u)):
-                        if isinstance(x_, Num) and x_.is_const() and x_.const() == 0 and isinstance(y_, Num) and y_.r == pred_r:
-                            if pos == positive:
-                                return True
-                if isinstance(q, P) and q.op == 'and' and pos and positive:
-                    for qq in q.args:
-                        if isinstance(qq, P) and qq.op == '==':
-                            u, v = qq.args
-                            for x_, y_ in ((u, v), (v, u)):
-                                if isinstance(x_, Num) and x_.is_const() and x_.const() == 0 and isinstance(y_, Num) and y_.r == pred_r:
-                                    return True
-            return False
-        nz, dz = holds(nom, True), holds(denom, True)
-        nnz, dnz = holds(nom, False), holds(denom, False)
-        if nz and dz:
-            return 'both-zero'
-        if nz and not dz:
-            return 'nom-zero'
-        if dz and nnz:
-            return 'denom-zero'
-        if nnz and dnz:
-            return 'general'
-        return None
+    def zero_test(q, r) -> bool:
+        if isinstance(q, P) and q.op == '==':
+            u, v = q.args
+            for x_, y_ in ((u, v), (v, u)):
+                if isinstance(x_, Num) and x_.is_const() and x_.const() == 0 and isinstance(y_, Num) and y_.length is None and y_.r == r:
+                    return True
+        return False
 
     expected = {
         'both-zero': (C(0), C(0)), 'nom-zero': (sp.rat('half'), C(0)), 'denom-zero': (C(0), sp.rat('half')),
         'general': (sp.rat('al'), sp.rat('ar')),
     }
-    seen_cases = {0: set(), 1: set()}
-    for side in (0, 1):
-        for e in table[side]:
-            v = e.data['value']
-            if not e.loops:
-                # framing entries for the two virtual intervals
+    CASES = {'both-zero': (True, True), 'nom-zero': (True, False), 'denom-zero': (False, True), 'general': (False, False)}
+    one = {_a(s.r): C(1)}
+    for c, (nz, dz) in CASES.items():
+        def leaf(q, nz=nz, dz=dz):
+            if zero_test(q, nom):
+                return nz
+            if zero_test(q, denom):
+                return dz
+            return None
+
+        def dec(q):
+            return tri(q, leaf)
+        for side in (0, 1):
+            name = 'left' if side == 0 else 'right'
+            inloop = [e for e in table[side] if e.loops]
+            truth = [(e, [tri(g, leaf) for g in e.guard]) for e in inloop]
+            open_ = [(e, ts) for e, ts in truth if any(t is None for t in ts) and not any(t is False for t in ts)]
+            if open_:
+                e = open_[0][0]
+                ctx.unknown('C06.6', f"{name} window, case {c}", f"append at {e.loc()}: cannot settle the branch condition {[str(g)[:80] for g in e.guard]}",
+                            e.loc(), fi.qualname, f"{side}:{c}")
                 continue
-            c = case_of(e.guard)
-            if c is None:
-                ctx.unknown('C06.6', f"append at {e.loc()}", f"cannot classify the branch condition {[str(g)[:80] for g in e.guard]}",
-                            e.loc(), fi.qualname, 'case')
+            live = [e for e, ts in truth if all(t is True for t in ts)]
+            if len(live) != 1:
+                ctx.fail('C06.6', f"{name} table: case {c} assigns exactly one entry per interval", f"{len(live)} appends apply", fi.loc(), fi.qualname, f"cases:{side}:{c}")
                 continue
-            seen_cases[side].add(c)
+            e = live[0]
+            v = assume(e.data['value'], dec)
             want = expected[c][side]
             got = v.r if isinstance(v, Num) and v.length is None else None
-            one = {_a(s.r): C(1)}
             if got is not None:
                 got, want = sym.subst(got, one), sym.subst(want, one)
-            ctx.check(got is not None and got == want, 'C06.6',
-                      f"{'left' if side == 0 else 'right'} window, case {c}",
+            ctx.check(got is not None and got == want, 'C06.6', f"{name} window, case {c}",
                       f"code:  {show(v, 400)}\nspec:  {sym.show(want)[:400]}", e.loc(), fi.qualname, f"{side}:{c}")
-    for side in (0, 1):
-        ctx.check(seen_cases[side] == set(expected), 'C06.6', f"{'left' if side == 0 else 'right'} table: all four cases assign an entry",
-                  f"cases seen: {sorted(seen_cases[side])}", fi.loc(), fi.qualname, f"cases:{side}")
     ctx.sample({'rule': 'C06.6', 'general_left': sym.show(expected['general'][0])[:200]})
     # the adaptive factor reaches the windows with the constructor's parameters
     for clsname in ('LinearAdaptiveRFA', 'ExpAdaptiveRFA'):
